@@ -425,6 +425,21 @@ def calls(node):
             yield n
 
 
+def category_of(F, cls):
+    """(enumerator name, value) of the category code a concrete node class is stamped with: the Category<Category_code::X, S>
+    base among its ancestors (C06 proves that this is what Node::category holds), or None."""
+    for a in [cls] + F.ancestors(cls):
+        r = F.rec.get(a)
+        if r and r.get('template') == 'ipr::Category' and r.get('targs'):
+            name = r['targs'][0].split('::')[-1]
+            en = F.enums.get('ipr::Category_code')
+            if en:
+                for e in en['enumerators']:
+                    if e['name'] == name:
+                        return name, int(e['value'])
+    return None
+
+
 def strip_casts(e):
     """Erase implicit/explicit casts that do not change the designated object."""
     while isinstance(e, dict) and e.get('k') == 'cast' and e.get('ck') in (
